@@ -112,6 +112,11 @@ func solve(workDir string, idx int, fx *FuncCtx, ob *Obligation, probes []string
 	}
 	ctx := context.Background()
 	total := time.Duration(0)
+	if ob.Cover {
+		// vacuity probes only matter when they come back unsat, which is quick when it happens
+		st, out, d := runSolver(ctx, solvers[0], file, 1500)
+		return finish(st, solvers[0].name, out, d)
+	}
 	if false && strings.Contains(q, "(define-fun-rec ") && !ob.Cover {
 		// stage 0: recursive definitions slow unrelated goals down; first try without
 		// them (dropping definitions and the assumptions that mention them only weakens the context)
